@@ -461,7 +461,10 @@ func (p *Prog) tryResolveType(s, pkg string, fn *ssa.Function) types.Type {
 	if t := p.lookupType(s, pkg); t != nil {
 		return t
 	}
-	// type parameters of the function
+	// type parameters of the function (for a closure: of the function it is declared in)
+	for fn != nil && fn.Parent() != nil {
+		fn = fn.Parent()
+	}
 	if fn != nil {
 		f := fn
 		if f.Origin() != nil {
